@@ -100,6 +100,19 @@ def pkl_write(data, file_info, stamp=None):
             time.sleep(WRITE_DELAY["s"])
 
 
+class PklIO:
+    """A user handler given as bound methods: writer(data, file_info, **kwargs)."""
+
+    def load(self, file_info, **kwargs):
+        return pkl_read(file_info, **kwargs)
+
+    def dump(self, data, file_info, **kwargs):
+        return pkl_write(data, file_info, **kwargs)
+
+
+BOUND = {"on": False}
+
+
 def post_reader(file_info, data):
     return dict(data, post="seen")
 
@@ -110,8 +123,13 @@ def convert_fn(data):
 
 def make_fs(root, tkey, suffix, name, **kw):
     from typhon.files import FileSet, FileHandler
+    if BOUND["on"]:
+        io = PklIO()
+        handler = FileHandler(reader=io.load, writer=io.dump)
+    else:
+        handler = FileHandler(reader=pkl_read, writer=pkl_write)
     return FileSet(path=root + "/" + name + "/" + TEMPLATES[tkey] + suffix, name=name,
-                   handler=FileHandler(reader=pkl_read, writer=pkl_write), **kw)
+                   handler=handler, **kw)
 
 
 def raw_read(path):
@@ -150,6 +168,7 @@ class History:
         self.steps = []
         self.next_id = 1
         self.flags = set()
+        self.moved_away = {}  # fileset name -> [(t0, t1, sat)] of files that were really moved out
 
     def case(self):
         return {"kind": "history", "seed": self.seed, "steps": self.steps[-12:]}
@@ -260,7 +279,12 @@ class History:
         fsname = rng.choice(sorted(self.filesets))
         fs, tkey, suffix = self.filesets[fsname]
         existing = self.files_of(fsname)
-        if existing and rng.random() < 0.25:  # overwrite
+        gone = [k for k in self.moved_away.get(fsname, []) if self.name_for(fsname, *k) not in self.model]
+        if gone and rng.random() < 0.5:  # write again to a period whose file was moved away earlier
+            t0, t1, sat = rng.choice(gone)
+            self.flags.add("rewrite-moved-away")
+            self.rec.count("step.rewrite_moved_away")
+        elif existing and rng.random() < 0.25:  # overwrite
             _, t0, t1, sat = self.meta[rng.choice(existing)]
             self.flags.add("overwrite")
         else:
@@ -371,6 +395,7 @@ class History:
                 del new_model[p]
                 del new_meta[p]
                 allowed.add(p)
+                self.moved_away.setdefault(src, []).append((t0, t1, sat))
         kw = self.sel_kwargs(src, sel)
         with audit.Trace([self.root]) as tr:
             try:
@@ -582,6 +607,7 @@ def run_history(rec, seed, hrng):
     root = scratch_dir("c11")
     os.makedirs(root + "/tmp-compress")
     h = History(rec, hrng, root, seed)
+    BOUND["on"] = hrng.random() < 0.3  # user handler built from bound methods in some histories
     try:
         kw = {}
         if hrng.random() < 0.4:
